@@ -28,7 +28,7 @@ CONFIG = {
                   "registers (known finding, oracle-detected; the model mirrors it). Variable/argument reads above restore_registers_at_frame "
                   "(DWARF expression evaluator, frame base) are C06/C19. The model<->code tie is sampling.",
     "trivial_answers": ["ok", "bad-op", "", "no-stop-env", "err"],
-    "runs": {"quick": [{"n": 12, "timeout": 900}], "thorough": [{"n": 240, "timeout": 9000}]},
+    "runs": {"quick": [{"n": 10, "timeout": 900}], "thorough": [{"n": 240, "timeout": 9000}]},
     "shrinkable": False,  # a replay step is a live session; the replay is the session itself
     "rule": "seeded sessions on live debuggees; a case is one observation (bt / frame k / finfo / regs k / retaddr) at a stop whose description "
             "(registers, object ranges, CFI rows of the frame pcs, stack words) was obtained without the debugger; distinct = different (request, answer)",
